@@ -25,7 +25,7 @@ func init() {
 		Race:         true,
 		RaceAdvisory: true, // client-side races are judged by C20; here they are only counted
 		CaseTimeout:  200e9,
-		Rule: "two kinds of cases. (a) notification content / count, deterministic, direct mode: scenarios of C05's generator; after every request and server idleness the MQTT stand-in's publish log must have grown by exactly one message on <collection>/<key> carrying {CUID: pusher, DUID, sseq: new end of log} for every datatype of the request that stored >= 1 operation, and by none otherwise. (b) realtime: 2-5 REALTIME SDK clients over real grpc and real paho clients on the MQTT stand-in (deliveries delayed at random; responses of served requests held back 0-5 ms so that notifications overtake them; a solo client loses 40 % of the responses to its pushes) subscribe, complete their first sync and then only issue local operations from their own goroutines at random moments, no Sync() call; after the last operation the harness waits for logical quiescence (no RPC in flight, no queued delivery, no announced background goroutine, no database command in progress, and no new RPC / publish event during a 2 s silence window) and then requires equal state on all clients and nothing left to push; in every second realtime case an epilogue steered by logical events follows (deliveries held at the broker while B pushes; A's next push held at the front after it was served; A issues a second operation and B's notification is released to A during that flight; then nothing else happens) with the same quiescence oracle; no client may start a push-pull because of a notification that its own push caused (hook events dm.notification / dm.sync.on-notification joined on receiver and sseq; a solo client, all of whose notifications are its own, must also issue no more push-pull RPCs than its local operations started); the run is under the race detector; " +
+		Rule: "two kinds of cases. (a) notification content / count, deterministic, direct mode: scenarios of C05's generator; after every request and server idleness the MQTT stand-in's publish log must have grown by exactly one message on <collection>/<key> carrying {CUID: pusher, DUID, sseq: new end of log} for every datatype of the request that stored >= 1 operation, and by none otherwise. (b) realtime: 2-5 REALTIME SDK clients over real grpc and real paho clients on the MQTT stand-in (deliveries delayed at random; responses of served requests held back 0-5 ms so that notifications overtake them; a solo client loses 40 % of the responses to its pushes) subscribe, complete their first sync and then only issue local operations from their own goroutines at random moments, no Sync() call; after the last operation the harness waits for logical quiescence (no RPC in flight, no queued delivery, no announced background goroutine, no database command in progress, and no new RPC / publish event during a 2 s silence window) and then requires equal state on all clients and nothing left to push; then an epilogue steered by logical events follows, with the same quiescence oracle: A's next push is held at the front after it was served and either (0) A issues a second operation and the notification of a push B made earlier (deliveries were held at the broker) is released to A during that flight, or (1) B pushes after A's request was served and its notification reaches A during that flight; then nothing else happens; no client may start a push-pull because of a notification that its own push caused (hook events dm.notification / dm.sync.on-notification joined on receiver and sseq; a solo client, all of whose notifications are its own, must also issue no more push-pull RPCs than its local operations started); the run is under the race detector; " +
 			"non-trivial = (a) >= 3 requests stored operations and >= 1 stored none; (b) >= 2 clients issued operations concurrently; distinct = hash of the script (a) / of the observed RPC order (b)",
 		Assumptions: []string{
 			"'converge by themselves' is decided as bounded progress to logical quiescence; not quiescent within 60 s => inconclusive",
@@ -369,16 +369,19 @@ func c18Realtime(c *core.Case) *core.Result {
 	if res := settleAndCompare("after the concurrent phase"); res != nil {
 		return res
 	}
-	if ncli >= 2 && (c.Index/2)%2 == 0 {
-		// epilogue, steered by logical events only: a push of client A is in flight (its response
-		// is held at the front), A issues a second operation meanwhile, and the notification of
-		// an operation that B pushed BEFORE A's request was served reaches A during that flight
-		// (deliveries were held at the broker). Nothing else happens afterwards: whatever A and B
-		// issued must still reach everybody.
+	if ncli >= 2 {
+		// epilogues, steered by logical events only. A's push is in flight (served, its response
+		// held at the front) and
+		//  variant 0: A issues a second operation meanwhile, and the notification of an operation
+		//             that B pushed BEFORE A's request was served reaches A during that flight
+		//             (deliveries were held at the broker);
+		//  variant 1: B pushes AFTER A's request was served (so A's response cannot contain it)
+		//             and B's notification reaches A during that flight.
+		// Nothing else happens afterwards: whatever A and B issued must still reach everybody.
+		variant := (c.Index / 2) % 2
 		A, B := cls[0], cls[1]
 		gA := crdt.NewGen(newRand(r.Int63()))
-		b.MQ.Hold()
-		released := false
+		released := true
 		release := func() {
 			if !released {
 				released = true
@@ -386,13 +389,17 @@ func c18Realtime(c *core.Case) *core.Result {
 			}
 		}
 		defer release()
-		pubs0 := b.MQ.NumPubs()
-		crdt.Apply(B.dt, sureOp(typ, gA))
-		for t := 0; t < 500 && b.MQ.NumPubs() == pubs0; t++ {
-			time.Sleep(10 * time.Millisecond)
-		}
-		if b.MQ.NumPubs() == pubs0 {
-			return c.Inconclusive("epilogue: B's push was not announced within 5 s")
+		if variant == 0 {
+			b.MQ.Hold()
+			released = false
+			pubs0 := b.MQ.NumPubs()
+			crdt.Apply(B.dt, sureOp(typ, gA))
+			for t := 0; t < 500 && b.MQ.NumPubs() == pubs0; t++ {
+				time.Sleep(10 * time.Millisecond)
+			}
+			if b.MQ.NumPubs() == pubs0 {
+				return c.Inconclusive("epilogue: B's push was not announced within 5 s")
+			}
 		}
 		served := make(chan struct{}, 1)
 		arrived := make(chan struct{}, 1)
@@ -424,10 +431,17 @@ func c18Realtime(c *core.Case) *core.Result {
 		case <-time.After(5 * time.Second):
 			return c.Inconclusive("epilogue: A's push did not reach the front within 5 s")
 		}
-		crdt.Apply(A.dt, sureOp(typ, gA)) // while A's push is in flight
-		release()                     // B's earlier notification now reaches A, still during the flight
-		c.Step("epilogue: A's push in flight, second operation of A, delayed notification of B's earlier push delivered to A")
-		c.Count("epilogues_push_in_flight_meets_notification", 1)
+		stage := ""
+		if variant == 0 {
+			crdt.Apply(A.dt, sureOp(typ, gA)) // while A's push is in flight
+			release()                         // B's earlier notification now reaches A, still during the flight
+			stage = "after a push in flight met a second local operation and a delayed foreign notification"
+		} else {
+			crdt.Apply(B.dt, sureOp(typ, gA)) // committed after A's request was served; announced to A during the flight
+			stage = "after a notification arrived during the client's own push whose response cannot contain the announced operation"
+		}
+		c.Step("epilogue variant %d", variant)
+		c.Count(fmt.Sprintf("epilogues_variant_%d", variant), 1)
 		epilogueSeen := &seenInFlight
 		defer func() {
 			if atomic.LoadInt32(epilogueSeen) == 1 {
@@ -436,7 +450,7 @@ func c18Realtime(c *core.Case) *core.Result {
 				c.Count("epilogue_notification_not_seen_during_flight", 1)
 			}
 		}()
-		if res := settleAndCompare("after a push in flight met a second local operation and a delayed foreign notification"); res != nil {
+		if res := settleAndCompare(stage); res != nil {
 			return res
 		}
 	}
